@@ -6,10 +6,10 @@ S = 'rpc/serialize.h'
 TARGETS = [
     Target('b_addr', S, r'void\* addr\(\) const (?=\{ return _ptr; \})', rules=[fields_rule(['_ptr'])]),
     Target('b_size', S, r'size_t size\(\) const (?=\{ return _len; \})', rules=[fields_rule(['_len'])]),
-    Target('a_size', S, r'size_t size\(\) const (?=\{ return _len / sizeof\(T\); \})', rules=[fields_rule(['_len'])]),
-    Target('a_begin', S, r'T\* begin\(\) const (?=\{ return \(T\*\)_ptr; \})', rules=[fields_rule(['_ptr'])]),
-    Target('a_end', S, r'T\* end\(\) const (?=\{ return begin\(\) \+ size\(\); \})', rules=[
-        (r'(?<![\w>.])begin\(\)', 'arrayP_begin(this)', 1), (r'(?<![\w>.])size\(\)', 'arrayP_size(this)', 1)]),
+    Target('a_size', S, r'size_t size\(\) const (?=\{)', index=1, count=2, rules=[fields_rule(['_len'], min_fires=0)]),
+    Target('a_begin', S, r'T\* begin\(\) const (?=\{)', rules=[fields_rule(['_ptr', '_len'], min_fires=0)]),
+    Target('a_end', S, r'T\* end\(\) const (?=\{)', rules=[fields_rule(['_ptr', '_len'], min_fires=0),
+        (r'(?<![\w>.])begin\(\)', 'arrayP_begin(this)', 0), (r'(?<![\w>.])size\(\)', 'arrayP_size(this)', 0)]),
     Target('s_c_str', S, r'const char\* c_str\(\) const (?=\{)', rules=[(r'(?<![\w>.])cbegin\(\)', 'arrayC_begin(this)', 1)]),
     Target('s_sv', S, r'std::string_view sv\(\) const (?=\{)', rules=[
         (r'return \{([^;{}]+)\};', r'return (struct sv){\1};', 1),
@@ -37,10 +37,17 @@ TARGETS = [
         (r'Hasher::extend_hash\(m_checksum, iov\);', 'Hasher_extend_iov(&this->m_checksum, iov);', 1),
         (r'Hasher::extend_hash\(m_checksum, body, body_length\);', 'Hasher_extend_buf(&this->m_checksum, body, body_length);', 1),
         (r'Hasher::init_value\(\)', 'HASHER_INIT', 1), fields_rule(['m_checksum'], min_fires=3)]),
+    Target('ser_iovec_array', S, r'void process_field\(iovec_array& x\)', index=1, count=3, rules=[
+        (r'for \(auto& v: x\)', 'for (struct iovec *v_ = arrayI_begin(x); v_ != arrayI_end(x); ++v_)', 1),      # range-for over array<iovec>: begin() / end() / ++
+        (r'\bx\.summed_size', 'x->summed_size', 0), (r'\bv\.(iov_len|iov_base)', r'v_->\1', 1),
+        (r'buffer buf\(v_->iov_base, v_->iov_len\);', 'struct buffer buf = { v_->iov_base, v_->iov_len };', 1),
+        (r'd\(\)->process_field\(buf\);', 'SER_process_field_buffer_c(this, &buf);', 1)],
+        marks={'count': 1, 0: dict(name='IA', frame=['v_', 'x', 'buf', 'SENT', 'CALLS', 'G_OK'], effects={'SER_process_field_buffer_c': ['SENT', 'CALLS', 'G_OK']}, pure=['arrayI_begin', 'arrayI_end'])}),
 ]
-UNITS = {'ser.c': 'ser.c.in'}
+UNITS = {'iova.c': 'iova.c.in', 'ser.c': 'ser.c.in'}
 CHECKS = ['--no-standard-checks', '--bounds-check', '--pointer-check', '--div-by-zero-check', '--signed-overflow-check', '--undefined-shift-check']
 PROOFS = [
+    Proof('serializer/iovec_array', 'iova.c', 'h_ser_iovec_array', kind='L', min_obligations=4, backend='cadical', aux_violation=True),
     Proof('slice_anchor/in_bounds', 'ser.c', 'h_anchor', kind='L', min_obligations=2),
     Proof('accessors', 'ser.c', 'h_accessors', kind='L', min_obligations=4, checks=CHECKS),
     Proof('deserializer/buffer', 'ser.c', 'h_des_buffer', kind='L', min_obligations=3),
